@@ -283,6 +283,7 @@ class Mitm:
         self.held = {}
         self.applied = []
         self.rec = None
+        self.finned = set()                   # directions ended by a FIN
 
     def attach(self, rec, ct, st):
         self.rec = rec
@@ -303,6 +304,8 @@ class Mitm:
         self.count[d] += 1
         n = self.count[d]
         self.seen[d].append(data)
+        if d in self.finned:                    # written behind the FIN
+            return []
         out = [data]
         if d in self.held:                      # second half of a swap
             out = [data, self.held.pop(d)]
@@ -321,6 +324,15 @@ class Mitm:
                 out = [data[:max(1, len(data) - 1 - a.get('cut', 0))]] + out[1:]
             elif op == 'drop':
                 out = out[1:]
+            elif op == 'fin':
+                # end of stream in front of this packet: whatever was to be
+                # forwarded before it goes out, then the receiver sees EOF
+                for o in out[1:]:
+                    transport._send(o)
+                self.fwd[d] += out[1:]
+                self.finned.add(d)
+                transport._send_eof()
+                return []
             elif op == 'dup':
                 out = [data] + out
             elif op == 'swap':
